@@ -21,10 +21,17 @@ def skipStatuses : List String := ["skip:undecodable", "skip:no-timeout", "skip:
 
 def isSkip (status : String) : Bool := skipStatuses.contains status
 
+/-- the only result a *time-out* event (kind time-out, `Root == nil`) may get, written `t:<res>` by
+    the harness. `processor.doActions`: Pass hands the event to the next actions, Break to the
+    output (`processSequence` → `router.Out`), Hold leaves the plugin with a document-less event
+    to `Propagate` later: each dereferences the nil root; Collapse keeps the processor pinned to
+    the silent stream with nothing held. Discard ends it (`finalize` ignores time-out events). -/
+def timeoutResults : List String := ["t:discard"]
+
 /-- one (result, status) pair -/
 def pairOk (res status : String) : Bool :=
   if isSkip status then res == "-"
-  else definedResults.contains res && status == "ok"
+  else (definedResults.contains res || timeoutResults.contains res) && status == "ok"
 
 def pairsOk : Nat → List String → Bool
   | 0, rest => rest == ["st:ok"]
